@@ -496,8 +496,9 @@ def aggr_cases(ctx, impl, wd, stats, n):
         body += ('Eval vm_compute in (%d, (let cs := map contrib_of_req [%s] in\n'
                  '  let pick := map (fun r => znth cs r (@nil (Z*Z), @nil byte)) in\n'
                  '  let ids := repeat 0 %d in\n'
-                 '  tiles_summary (aggr_writes empty_disk (map pick (aggr_groups %d %d ids)) (pick (unaggregated %d %d ids)))\n'
-                 '                (concat (map fst cs)))).\n') % (ix, '; '.join(reqs), c['np'], c['np'], c['naggr'], c['np'], c['naggr'])
+                 '  (pairs_disjoint (concat (map fst cs)),\n'
+                 '   tiles_summary (aggr_writes empty_disk (map pick (aggr_groups %d %d ids)) (pick (unaggregated %d %d ids)))\n'
+                 '                 (concat (map fst cs))))).\n') % (ix, '; '.join(reqs), c['np'], c['np'], c['naggr'], c['np'], c['naggr'])
     res, out, rc = coq_eval(wd, body, 'aggr')
     if rc != 0:
         ctx.violation('corr_C10_aggr: the model cases do not compile', dict(log=out[-2000:]), no_input=True)
@@ -542,7 +543,13 @@ def aggr_cases(ctx, impl, wd, stats, n):
         v = res.get(ix)
         if v is None:
             model_bad.append((c, 'model produced nothing')); continue
-        for (off, bs) in v:
+        flag, tiles = v
+        if flag != [1]:
+            # the model's own pairs overlap (only possible through the flatten_req defect): the
+            # outcome depends on how the unstable sort orders them; not comparable
+            stats['aggr_order_dependent'] = stats.get('aggr_order_dependent', 0) + 1
+            continue
+        for (off, bs) in tiles:
             got = list(s_on[off:off + len(bs)]) + [0] * (len(bs) - len(s_on[off:off + len(bs)]))
             if any(m >= 0 and m != x for m, x in zip(bs, got)):
                 model_bad.append((c, 'at offset %d the model predicts %s, the file holds %s' % (off, bs, got))); break
